@@ -1,63 +1,20 @@
-// Copyright 2013 The Go Authors. All rights reserved.
-// Use of this source code is governed by a BSD-style
-// license that can be found in the LICENSE file.
+// Derived from golang.org/x/tools/go/ssa/interp (BSD licence, The Go Authors).
+// Modified: symbolic scalars and strings, path forking, cooperative threads,
+// insertion-ordered maps, modelled channels, intrinsics for runtime/sync.
 
-// Package ssa/interp defines an interpreter for the SSA
-// representation of Go programs.
-//
-// This interpreter is provided as an adjunct for testing the SSA
-// construction algorithm.  Its purpose is to provide a minimal
-// metacircular implementation of the dynamic semantics of each SSA
-// instruction.  It is not, and will never be, a production-quality Go
-// interpreter.
-//
-// The following is a partial list of Go features that are currently
-// unsupported or incomplete in the interpreter.
-//
-// * Unsafe operations, including all uses of unsafe.Pointer, are
-// impossible to support given the "boxed" value representation we
-// have chosen.
-//
-// * The reflect package is only partially implemented.
-//
-// * The "testing" package is no longer supported because it
-// depends on low-level details that change too often.
-//
-// * "sync/atomic" operations are not atomic due to the "boxed" value
-// representation: it is not possible to read, modify and write an
-// interface value atomically. As a consequence, Mutexes are currently
-// broken.
-//
-// * recover is only partially implemented.  Also, the interpreter
-// makes no attempt to distinguish target panics from interpreter
-// crashes.
-//
-// * the sizes of the int, uint and uintptr types in the target
-// program are assumed to be the same as those of the interpreter
-// itself.
-//
-// * all values occupy space, even those of types defined by the spec
-// to have zero size, e.g. struct{}.  This can cause asymptotic
-// performance degradation.
-//
-// * os.Exit is implemented using panic, causing deferred functions to
-// run.
-package interp // import "golang.org/x/tools/go/ssa/interp"
+package main
 
 import (
 	"fmt"
 	"go/token"
 	"go/types"
-	"log"
 	"os"
-	"reflect"
 	"runtime"
+	"runtime/debug"
 	"slices"
-	"sync/atomic"
-	_ "unsafe"
+	"strings"
 
 	"golang.org/x/tools/go/ssa"
-	"golang.org/x/tools/internal/typeparams"
 )
 
 type continuation int
@@ -68,28 +25,50 @@ const (
 	kJump
 )
 
-// Mode is a bitmask of options affecting the interpreter.
-type Mode uint
-
-const (
-	DisableRecover Mode = 1 << iota // Disable recover() in target programs; show interpreter crash instead.
-	EnableTracing                   // Print a trace of all instructions as they are interpreted.
-)
-
 type methodSet map[string]*ssa.Function
 
-// State shared between all interpreted goroutines.
+type config struct {
+	maxSteps      int64
+	maxDecisions  int
+	maxConcretize int
+	maxPaths      int
+	trace         bool
+}
+
+// job identifies one harness instance.
+type job struct {
+	pkg     string
+	harness string
+	args    []int
+}
+
+// interpreter is the per-worker state. prog is shared and read-only.
 type interpreter struct {
-	osArgs             []value                // the value of os.Args
-	prog               *ssa.Program           // the SSA program
-	globals            map[*ssa.Global]*value // addresses of global variables (immutable)
-	mode               Mode                   // interpreter options
-	reflectPackage     *ssa.Package           // the fake reflect package
-	errorMethods       methodSet              // the method set of reflect.error, which implements the error interface.
-	rtypeMethods       methodSet              // the method set of rtype, which implements the reflect.Type interface.
-	runtimeErrorString types.Type             // the runtime.errorString type
-	sizes              types.Sizes            // the effective type-sizing function
-	goroutines         int32                  // atomically updated
+	prog               *ssa.Program
+	globals            map[*ssa.Global]*value
+	reflectPackage     *ssa.Package
+	errorMethods       methodSet
+	rtypeMethods       methodSet
+	runtimeErrorString types.Type
+	sizes              types.Sizes
+
+	cfg        config
+	tc         *tctx
+	solver     *solver
+	path       *pathState
+	st         stats
+	work       [][]decision
+	job        job
+	violations []violation
+	sch        *schedState
+	extCache   map[*ssa.Function]externalFn
+	side       *sideState
+	world      *world
+	pkgs       []*ssa.Package
+	initOrder  []*ssa.Package
+	frozen     map[*value]string
+	allocLimit value // nil or int/sym: limit for guarded allocations
+	funcsRun   map[*ssa.Function]int
 }
 
 type deferred struct {
@@ -104,20 +83,18 @@ type frame struct {
 	caller           *frame
 	fn               *ssa.Function
 	block, prevBlock *ssa.BasicBlock
-	env              map[ssa.Value]value // dynamic values of SSA variables
+	env              map[ssa.Value]value
 	locals           []value
 	defers           *deferred
 	result           value
 	panicking        bool
 	panic            interface{}
-	phitemps         []value // temporaries for parallel phi assignment
+	phitemps         []value
 }
 
 func (fr *frame) get(key ssa.Value) value {
 	switch key := key.(type) {
 	case nil:
-		// Hack; simplifies handling of optional attributes
-		// such as ssa.Slice.{Low,High}.
 		return nil
 	case *ssa.Function, *ssa.Builtin:
 		return key
@@ -131,51 +108,66 @@ func (fr *frame) get(key ssa.Value) value {
 	if r, ok := fr.env[key]; ok {
 		return r
 	}
-	panic(fmt.Sprintf("get: no value for %T: %v", key, key.Name()))
+	panic(engineError(fmt.Sprintf("get: no value for %T: %v", key, key.Name())))
 }
 
-// runDefer runs a deferred call d.
-// It always returns normally, but may set or clear fr.panic.
-func (fr *frame) runDefer(d *deferred) {
-	if fr.i.mode&EnableTracing != 0 {
-		fmt.Fprintf(os.Stderr, "%s: invoking deferred function call\n",
-			fr.i.prog.Fset.Position(d.instr.Pos()))
+// isTargetPanic reports whether a recovered Go panic value is a panic of the
+// interpreted program (as opposed to a path abort or an engine failure).
+func isTargetPanic(r interface{}) bool {
+	switch x := r.(type) {
+	case targetPanic, rtError:
+		return true
+	case runtime.Error:
+		// a failed type assertion on engine types is an engine bug, not a
+		// run-time panic of the interpreted program
+		if strings.Contains(x.Error(), "main.") {
+			return false
+		}
+		return true
 	}
+	return false
+}
+
+func rethrowIfEngine(r interface{}) {
+	if r == nil {
+		return
+	}
+	if pa, ok := r.(pathAbort); ok {
+		panic(pa)
+	}
+	if !isTargetPanic(r) {
+		msg := fmt.Sprintf("interpreter panic: %v", r)
+		if os.Getenv("VX_DEBUG") != "" {
+			msg += "\n" + string(debug.Stack())
+		}
+		panic(engineError(msg))
+	}
+}
+
+func (fr *frame) runDefer(d *deferred) {
 	var ok bool
 	defer func() {
 		if !ok {
-			// Deferred call created a new state of panic.
+			r := recover()
+			rethrowIfEngine(r)
 			fr.panicking = true
-			fr.panic = recover()
+			fr.panic = r
 		}
 	}()
 	call(fr.i, fr, d.instr.Pos(), d.fn, d.args)
 	ok = true
 }
 
-// runDefers executes fr's deferred function calls in LIFO order.
-//
-// On entry, fr.panicking indicates a state of panic; if
-// true, fr.panic contains the panic value.
-//
-// On completion, if a deferred call started a panic, or if no
-// deferred call recovered from a previous state of panic, then
-// runDefers itself panics after the last deferred call has run.
-//
-// If there was no initial state of panic, or it was recovered from,
-// runDefers returns normally.
 func (fr *frame) runDefers() {
 	for d := fr.defers; d != nil; d = d.tail {
 		fr.runDefer(d)
 	}
 	fr.defers = nil
 	if fr.panicking {
-		panic(fr.panic) // new panic, or still panicking
+		panic(fr.panic)
 	}
 }
 
-// lookupMethod returns the method set for type typ, which may be one
-// of the interpreter's fake types.
 func lookupMethod(i *interpreter, typ types.Type, meth *types.Func) *ssa.Function {
 	switch typ {
 	case rtypeType:
@@ -186,19 +178,24 @@ func lookupMethod(i *interpreter, typ types.Type, meth *types.Func) *ssa.Functio
 	return i.prog.LookupMethod(typ, meth.Pkg(), meth.Name())
 }
 
-// visitInstr interprets a single ssa.Instruction within the activation
-// record frame.  It returns a continuation value indicating where to
-// read the next instruction from.
+func mustDeref(t types.Type) types.Type {
+	if p, ok := t.Underlying().(*types.Pointer); ok {
+		return p.Elem()
+	}
+	panic(engineError("mustDeref: " + t.String()))
+}
+
 func visitInstr(fr *frame, instr ssa.Instruction) continuation {
+	i := fr.i
 	switch instr := instr.(type) {
 	case *ssa.DebugRef:
 		// no-op
 
 	case *ssa.UnOp:
-		fr.env[instr] = unop(instr, fr.get(instr.X))
+		fr.env[instr] = i.unop(instr, fr.get(instr.X))
 
 	case *ssa.BinOp:
-		fr.env[instr] = binop(instr.Op, instr.X.Type(), fr.get(instr.X), fr.get(instr.Y))
+		fr.env[instr] = i.binop(instr.Op, instr.X.Type(), fr.get(instr.X), fr.get(instr.Y))
 
 	case *ssa.Call:
 		fn, args := prepareCall(fr, &instr.Call)
@@ -208,10 +205,10 @@ func visitInstr(fr *frame, instr ssa.Instruction) continuation {
 		fr.env[instr] = fr.get(instr.X)
 
 	case *ssa.ChangeType:
-		fr.env[instr] = fr.get(instr.X) // (can't fail)
+		fr.env[instr] = fr.get(instr.X)
 
 	case *ssa.Convert:
-		fr.env[instr] = conv(instr.Type(), instr.X.Type(), fr.get(instr.X))
+		fr.env[instr] = i.conv(instr.Type(), instr.X.Type(), fr.get(instr.X))
 
 	case *ssa.SliceToArrayPointer:
 		fr.env[instr] = sliceToArrayPointer(instr.Type(), instr.X.Type(), fr.get(instr.X))
@@ -223,7 +220,7 @@ func visitInstr(fr *frame, instr ssa.Instruction) continuation {
 		fr.env[instr] = fr.get(instr.Tuple).(tuple)[instr.Index]
 
 	case *ssa.Slice:
-		fr.env[instr] = slice(fr.get(instr.X), fr.get(instr.Low), fr.get(instr.High), fr.get(instr.Max))
+		fr.env[instr] = i.slice(fr.get(instr.X), fr.get(instr.Low), fr.get(instr.High), fr.get(instr.Max))
 
 	case *ssa.Return:
 		switch len(instr.Results) {
@@ -244,17 +241,17 @@ func visitInstr(fr *frame, instr ssa.Instruction) continuation {
 		fr.runDefers()
 
 	case *ssa.Panic:
-		panic(targetPanic{fr.get(instr.X)})
+		panic(targetPanic{v: fr.get(instr.X)})
 
 	case *ssa.Send:
-		fr.get(instr.Chan).(chan value) <- fr.get(instr.X)
+		i.chanSend(fr.get(instr.Chan).(*vchan), fr.get(instr.X))
 
 	case *ssa.Store:
-		store(typeparams.MustDeref(instr.Addr.Type()), fr.get(instr.Addr).(*value), fr.get(instr.Val))
+		i.store(mustDeref(instr.Addr.Type()), fr.get(instr.Addr), fr.get(instr.Val))
 
 	case *ssa.If:
 		succ := 1
-		if fr.get(instr.Cond).(bool) {
+		if i.truth(fr.get(instr.Cond), "if@"+i.posStr(instr.Pos(), fr.fn)) {
 			succ = 0
 		}
 		fr.prevBlock, fr.block = fr.block, fr.block.Succs[succ]
@@ -270,62 +267,58 @@ func visitInstr(fr *frame, instr ssa.Instruction) continuation {
 		if into := fr.get(instr.DeferStack); into != nil {
 			defers = into.(**deferred)
 		}
-		*defers = &deferred{
-			fn:    fn,
-			args:  args,
-			instr: instr,
-			tail:  *defers,
-		}
+		*defers = &deferred{fn: fn, args: args, instr: instr, tail: *defers}
 
 	case *ssa.Go:
 		fn, args := prepareCall(fr, &instr.Call)
-		atomic.AddInt32(&fr.i.goroutines, 1)
-		go func() {
-			call(fr.i, nil, instr.Pos(), fn, args)
-			atomic.AddInt32(&fr.i.goroutines, -1)
-		}()
+		i.goStmt(fr, instr.Pos(), fn, args)
 
 	case *ssa.MakeChan:
-		fr.env[instr] = make(chan value, asInt64(fr.get(instr.Size)))
+		fr.env[instr] = &vchan{cap: int(i.concretize(fr.get(instr.Size), "makechan")), elem: instr.Type().Underlying().(*types.Chan).Elem()}
 
 	case *ssa.Alloc:
 		var addr *value
 		if instr.Heap {
-			// new
 			addr = new(value)
 			fr.env[instr] = addr
 		} else {
-			// local
 			addr = fr.env[instr].(*value)
 		}
-		*addr = zero(typeparams.MustDeref(instr.Type()))
+		*addr = zero(mustDeref(instr.Type()))
 
 	case *ssa.MakeSlice:
-		slice := make([]value, asInt64(fr.get(instr.Cap)))
-		tElt := instr.Type().Underlying().(*types.Slice).Elem()
-		for i := range slice {
-			slice[i] = zero(tElt)
+		lenV, capV := fr.get(instr.Len), fr.get(instr.Cap)
+		i.checkAlloc(capV, instr.Pos(), fr.fn)
+		c := i.concretize(capV, "makeslice.cap")
+		l := i.concretize(lenV, "makeslice.len")
+		if l < 0 || c < l || c > 1<<26 {
+			if l < 0 || c < l {
+				panic(targetRuntimeError("makeslice: len out of range"))
+			}
+			panic(unsupported(fmt.Sprintf("make([]T, %d) too large for the engine", c)))
 		}
-		fr.env[instr] = slice[:asInt64(fr.get(instr.Len))]
+		slice := make([]value, c)
+		tElt := instr.Type().Underlying().(*types.Slice).Elem()
+		for k := range slice {
+			slice[k] = zero(tElt)
+		}
+		fr.env[instr] = slice[:l]
 
 	case *ssa.MakeMap:
-		var reserve int64
-		if instr.Reserve != nil {
-			reserve = asInt64(fr.get(instr.Reserve))
-		}
-		if !fitsInt(reserve, fr.i.sizes) {
-			panic(fmt.Sprintf("ssa.MakeMap.Reserve value %d does not fit in int", reserve))
-		}
-		fr.env[instr] = makeMap(instr.Type().Underlying().(*types.Map).Key(), reserve)
+		fr.env[instr] = newOmap()
 
 	case *ssa.Range:
-		fr.env[instr] = rangeIter(fr.get(instr.X), instr.X.Type())
+		fr.env[instr] = i.rangeIter(fr.get(instr.X), instr.X.Type())
 
 	case *ssa.Next:
 		fr.env[instr] = fr.get(instr.Iter).(iter).next()
 
 	case *ssa.FieldAddr:
-		fr.env[instr] = &(*fr.get(instr.X).(*value)).(structure)[instr.Field]
+		p := fr.get(instr.X).(*value)
+		if p == nil {
+			panic(targetRuntimeError("invalid memory address or nil pointer dereference"))
+		}
+		fr.env[instr] = &(*p).(structure)[instr.Field]
 
 	case *ssa.Field:
 		fr.env[instr] = fr.get(instr.X).(structure)[instr.Field]
@@ -333,43 +326,73 @@ func visitInstr(fr *frame, instr ssa.Instruction) continuation {
 	case *ssa.IndexAddr:
 		x := fr.get(instr.X)
 		idx := fr.get(instr.Index)
+		var elems []value
 		switch x := x.(type) {
 		case []value:
-			fr.env[instr] = &x[asInt64(idx)]
+			elems = x
 		case *value: // *array
-			fr.env[instr] = &(*x).(array)[asInt64(idx)]
+			if x == nil {
+				panic(targetRuntimeError("invalid memory address or nil pointer dereference"))
+			}
+			elems = (*x).(array)
 		default:
-			panic(fmt.Sprintf("unexpected x type in IndexAddr: %T", x))
+			panic(engineError(fmt.Sprintf("unexpected x type in IndexAddr: %T", x)))
 		}
+		if s, ok := idx.(sym); ok {
+			i.boundsCheck(s, len(elems))
+			if scalarElems(elems) && len(elems) <= 256 {
+				fr.env[instr] = &symptr{elems: elems, idx: s}
+				break
+			}
+			idx = int(i.concretize(s, "indexaddr"))
+		}
+		k := asInt64(idx)
+		if k < 0 || k >= int64(len(elems)) {
+			panic(targetRuntimeError(fmt.Sprintf("index out of range [%d] with length %d", k, len(elems))))
+		}
+		fr.env[instr] = &elems[k]
 
 	case *ssa.Index:
 		x := fr.get(instr.X)
 		idx := fr.get(instr.Index)
-
 		switch x := x.(type) {
 		case array:
-			fr.env[instr] = x[asInt64(idx)]
-		case string:
-			fr.env[instr] = x[asInt64(idx)]
+			if s, ok := idx.(sym); ok {
+				i.boundsCheck(s, len(x))
+				fr.env[instr] = i.selectElem(x, s)
+				break
+			}
+			k := asInt64(idx)
+			if k < 0 || k >= int64(len(x)) {
+				panic(targetRuntimeError(fmt.Sprintf("index out of range [%d] with length %d", k, len(x))))
+			}
+			fr.env[instr] = x[k]
+		case string, *symstr:
+			n := strLen(x)
+			if s, ok := idx.(sym); ok {
+				i.boundsCheck(s, n)
+				fr.env[instr] = i.selectElem(strBytesView(x), s)
+				break
+			}
+			k := asInt64(idx)
+			if k < 0 || k >= int64(n) {
+				panic(targetRuntimeError(fmt.Sprintf("index out of range [%d] with length %d", k, n)))
+			}
+			fr.env[instr] = strByte(x, int(k))
 		default:
-			panic(fmt.Sprintf("unexpected x type in Index: %T", x))
+			panic(engineError(fmt.Sprintf("unexpected x type in Index: %T", x)))
 		}
 
 	case *ssa.Lookup:
-		fr.env[instr] = lookup(instr, fr.get(instr.X), fr.get(instr.Index))
+		fr.env[instr] = i.lookup(instr, fr.get(instr.X), fr.get(instr.Index))
 
 	case *ssa.MapUpdate:
-		m := fr.get(instr.Map)
-		key := fr.get(instr.Key)
-		v := fr.get(instr.Value)
-		switch m := m.(type) {
-		case map[value]value:
-			m[key] = v
-		case *hashmap:
-			m.insert(key.(hashable), v)
-		default:
-			panic(fmt.Sprintf("illegal map type: %T", m))
+		m := fr.get(instr.Map).(*omap)
+		if m == nil {
+			panic(targetPanic{v: iface{i.runtimeErrorString, "assignment to entry in nil map"}})
 		}
+		kt := instr.Map.Type().Underlying().(*types.Map).Key()
+		i.mapInsert(m, kt, fr.get(instr.Key), fr.get(instr.Value))
 
 	case *ssa.TypeAssert:
 		fr.env[instr] = typeAssert(fr.i, instr, fr.get(instr.X).(iface))
@@ -382,79 +405,106 @@ func visitInstr(fr *frame, instr ssa.Instruction) continuation {
 		fr.env[instr] = &closure{instr.Fn.(*ssa.Function), bindings}
 
 	case *ssa.Phi:
-		log.Fatal("unreachable") // phis are processed at block entry
+		panic(engineError("unreachable phi"))
 
 	case *ssa.Select:
-		var cases []reflect.SelectCase
-		if !instr.Blocking {
-			cases = append(cases, reflect.SelectCase{
-				Dir: reflect.SelectDefault,
-			})
-		}
-		for _, state := range instr.States {
-			var dir reflect.SelectDir
-			if state.Dir == types.RecvOnly {
-				dir = reflect.SelectRecv
-			} else {
-				dir = reflect.SelectSend
-			}
-			var send reflect.Value
-			if state.Send != nil {
-				send = reflect.ValueOf(fr.get(state.Send))
-			}
-			cases = append(cases, reflect.SelectCase{
-				Dir:  dir,
-				Chan: reflect.ValueOf(fr.get(state.Chan)),
-				Send: send,
-			})
-		}
-		chosen, recv, recvOk := reflect.Select(cases)
-		if !instr.Blocking {
-			chosen-- // default case should have index -1.
-		}
-		r := tuple{chosen, recvOk}
-		for i, st := range instr.States {
-			if st.Dir == types.RecvOnly {
-				var v value
-				if i == chosen && recvOk {
-					// No need to copy since send makes an unaliased copy.
-					v = recv.Interface().(value)
-				} else {
-					v = zero(st.Chan.Type().Underlying().(*types.Chan).Elem())
-				}
-				r = append(r, v)
-			}
-		}
-		fr.env[instr] = r
+		fr.env[instr] = i.selectStmt(fr, instr)
 
 	default:
-		panic(fmt.Sprintf("unexpected instruction: %T", instr))
+		panic(engineError(fmt.Sprintf("unexpected instruction: %T", instr)))
 	}
-
-	// if val, ok := instr.(ssa.Value); ok {
-	// 	fmt.Println(toString(fr.env[val])) // debugging
-	// }
-
 	return kNext
 }
 
-// prepareCall determines the function value and argument values for a
-// function call in a Call, Go or Defer instruction, performing
-// interface method lookup if needed.
+func (i *interpreter) posStr(pos token.Pos, fn *ssa.Function) string {
+	if pos == token.NoPos {
+		if fn != nil {
+			return fn.Name()
+		}
+		return "?"
+	}
+	p := i.prog.Fset.Position(pos)
+	f := p.Filename
+	if k := lastSlashes(f, 2); k >= 0 {
+		f = f[k+1:]
+	}
+	return fmt.Sprintf("%s:%d", f, p.Line)
+}
+
+func lastSlashes(s string, n int) int {
+	for k := len(s) - 1; k >= 0; k-- {
+		if s[k] == '/' {
+			n--
+			if n == 0 {
+				return k
+			}
+		}
+	}
+	return -1
+}
+
+func scalarElems(e []value) bool {
+	if len(e) == 0 {
+		return false
+	}
+	switch e[0].(type) {
+	case sym:
+		return true
+	}
+	_, _, ok := intBits(e[0])
+	return ok
+}
+
+// boundsCheck forks on idx out of [0,n) and raises the Go panic on that side.
+func (i *interpreter) boundsCheck(idx sym, n int) {
+	var inb *Term
+	w := idx.t.w
+	// unsigned comparison covers negative values of signed kinds too
+	inb = i.tc.Cmp("bvult", idx.t, i.tc.Const(w, uint64(n)))
+	if !i.decide(inb, "bounds") {
+		panic(targetRuntimeError(fmt.Sprintf("index out of range [sym] with length %d", n)))
+	}
+}
+
+// selectElem builds an ite chain elems[idx] for scalar elements.
+func (i *interpreter) selectElem(elems []value, idx sym) value {
+	if len(elems) == 0 {
+		panic(engineError("selectElem on empty"))
+	}
+	if !scalarElems(elems) || len(elems) > 256 {
+		k := i.concretize(idx, "index")
+		return elems[k]
+	}
+	_, kind := i.termOf(elems[0])
+	var acc *Term
+	for k := len(elems) - 1; k >= 0; k-- {
+		t, _ := i.termOf(elems[k])
+		if acc == nil {
+			acc = t
+			continue
+		}
+		acc = i.tc.Ite(i.tc.Cmp("=", idx.t, i.tc.Const(idx.t.w, uint64(k))), t, acc)
+	}
+	return mkVal(acc, kind)
+}
+
+// symptr is the address elems[idx] with a symbolic index (scalar elements).
+type symptr struct {
+	elems []value
+	idx   sym
+}
+
 func prepareCall(fr *frame, call *ssa.CallCommon) (fn value, args []value) {
 	v := fr.get(call.Value)
 	if call.Method == nil {
-		// Function call.
 		fn = v
 	} else {
-		// Interface method invocation.
 		recv := v.(iface)
 		if recv.t == nil {
-			panic("method invoked on nil interface")
+			panic(targetRuntimeError("invalid memory address or nil pointer dereference (method on nil interface)"))
 		}
 		if f := lookupMethod(fr.i, recv.t, call.Method); f == nil {
-			// Unreachable in well-typed programs.
-			panic(fmt.Sprintf("method set for dynamic type %v does not contain %s", recv.t, call.Method))
+			panic(engineError(fmt.Sprintf("method set for dynamic type %v does not contain %s", recv.t, call.Method)))
 		} else {
 			fn = f
 		}
@@ -466,131 +516,121 @@ func prepareCall(fr *frame, call *ssa.CallCommon) (fn value, args []value) {
 	return
 }
 
-// call interprets a call to a function (function, builtin or closure)
-// fn with arguments args, returning its result.
-// callpos is the position of the callsite.
 func call(i *interpreter, caller *frame, callpos token.Pos, fn value, args []value) value {
 	switch fn := fn.(type) {
 	case *ssa.Function:
 		if fn == nil {
-			panic("call of nil function") // nil of func type
+			panic(targetRuntimeError("invalid memory address or nil pointer dereference (nil func)"))
 		}
 		return callSSA(i, caller, callpos, fn, args, nil)
 	case *closure:
 		return callSSA(i, caller, callpos, fn.Fn, args, fn.Env)
 	case *ssa.Builtin:
 		return callBuiltin(caller, callpos, fn, args)
+	case *nativeFunc:
+		return fn.f(caller, args)
 	}
-	panic(fmt.Sprintf("cannot call %T", fn))
+	panic(engineError(fmt.Sprintf("cannot call %T", fn)))
 }
 
-func loc(fset *token.FileSet, pos token.Pos) string {
-	if pos == token.NoPos {
-		return ""
-	}
-	return " at " + fset.Position(pos).String()
+// nativeFunc is an engine-implemented function value.
+type nativeFunc struct {
+	name string
+	f    func(fr *frame, args []value) value
 }
 
-// callSSA interprets a call to function fn with arguments args,
-// and lexical environment env, returning its result.
-// callpos is the position of the callsite.
 func callSSA(i *interpreter, caller *frame, callpos token.Pos, fn *ssa.Function, args []value, env []value) value {
-	if i.mode&EnableTracing != 0 {
-		fset := fn.Prog.Fset
-		// TODO(adonovan): fix: loc() lies for external functions.
-		fmt.Fprintf(os.Stderr, "Entering %s%s.\n", fn, loc(fset, fn.Pos()))
-		suffix := ""
-		if caller != nil {
-			suffix = ", resuming " + caller.fn.String() + loc(fset, callpos)
-		}
-		defer fmt.Fprintf(os.Stderr, "Leaving %s%s.\n", fn, suffix)
+	if i.cfg.trace {
+		fmt.Fprintf(os.Stderr, "Entering %s\n", fn)
 	}
-	fr := &frame{
-		i:      i,
-		caller: caller, // for panic/recover
-		fn:     fn,
+	fr := &frame{i: i, caller: caller, fn: fn}
+	ext, cached := i.extCache[fn]
+	if !cached {
+		ext = i.findExternal(fn)
+		i.extCache[fn] = ext
 	}
-	if fn.Parent() == nil {
-		name := fn.String()
-		if ext := externals[name]; ext != nil {
-			if i.mode&EnableTracing != 0 {
-				fmt.Fprintln(os.Stderr, "\t(external)")
-			}
-			return ext(fr, args)
-		}
-		if fn.Blocks == nil {
-			panic("no code for function: " + name)
-		}
+	if ext != nil {
+		return ext(fr, args)
 	}
-
-	// generic function body?
+	if fn.Blocks == nil {
+		panic(unsupported("no code for function: " + fn.String()))
+	}
 	if fn.TypeParams().Len() > 0 && len(fn.TypeArgs()) == 0 {
-		panic("interp requires ssa.BuilderMode to include InstantiateGenerics to execute generics")
+		panic(engineError("uninstantiated generic " + fn.String()))
+	}
+	if i.funcsRun != nil {
+		i.funcsRun[fn]++
 	}
 
 	fr.env = make(map[ssa.Value]value)
 	fr.block = fn.Blocks[0]
 	fr.locals = make([]value, len(fn.Locals))
-	for i, l := range fn.Locals {
-		fr.locals[i] = zero(typeparams.MustDeref(l.Type()))
-		fr.env[l] = &fr.locals[i]
+	for k, l := range fn.Locals {
+		fr.locals[k] = zero(mustDeref(l.Type()))
+		fr.env[l] = &fr.locals[k]
 	}
-	for i, p := range fn.Params {
-		fr.env[p] = args[i]
+	for k, p := range fn.Params {
+		fr.env[p] = args[k]
 	}
-	for i, fv := range fn.FreeVars {
-		fr.env[fv] = env[i]
+	for k, fv := range fn.FreeVars {
+		fr.env[fv] = env[k]
 	}
 	for fr.block != nil {
 		runFrame(fr)
 	}
-	// Destroy the locals to avoid accidental use after return.
-	for i := range fn.Locals {
-		fr.locals[i] = bad{}
-	}
 	return fr.result
 }
 
-// runFrame executes SSA instructions starting at fr.block and
-// continuing until a return, a panic, or a recovered panic.
-//
-// After a panic, runFrame panics.
-//
-// After a normal return, fr.result contains the result of the call
-// and fr.block is nil.
-//
-// A recovered panic in a function without named return parameters
-// (NRPs) becomes a normal return of the zero value of the function's
-// result type.
-//
-// After a recovered panic in a function with NRPs, fr.result is
-// undefined and fr.block contains the block at which to resume
-// control.
 func runFrame(fr *frame) {
 	defer func() {
 		if fr.block == nil {
 			return // normal return
 		}
-		if fr.i.mode&DisableRecover != 0 {
-			return // let interpreter crash
+		r := recover()
+		if r != nil && !isTargetPanic(r) {
+			if _, ok := r.(pathAbort); !ok {
+				r = engineError(fmt.Sprintf("interpreter panic: %v\n  in %s", r, fr.stack()))
+				if os.Getenv("VX_DEBUG") == "2" {
+					os.Stderr.Write(debug.Stack())
+				}
+			}
+		}
+		rethrowIfEngine(r)
+		if os.Getenv("VX_DEBUG") == "3" {
+			if _, ok := r.(runtime.Error); ok {
+				os.Stderr.Write(debug.Stack())
+			}
+		}
+		switch x := r.(type) {
+		case runtime.Error:
+			r = rtError{msg: strings.TrimPrefix(x.Error(), "runtime error: "), where: fr.stack()}
+		case rtError:
+			if x.where == "" {
+				x.where = fr.stack()
+				r = x
+			}
+		case targetPanic:
+			if x.where == "" {
+				x.where = fr.stack()
+				r = x
+			}
 		}
 		fr.panicking = true
-		fr.panic = recover()
-		if fr.i.mode&EnableTracing != 0 {
-			fmt.Fprintf(os.Stderr, "Panicking: %T %v.\n", fr.panic, fr.panic)
-		}
+		fr.panic = r
 		fr.runDefers()
 		fr.block = fr.fn.Recover
 	}()
 
+	i := fr.i
 	for {
-		if fr.i.mode&EnableTracing != 0 {
-			fmt.Fprintf(os.Stderr, ".%s:\n", fr.block)
-		}
-
 		nonPhis := executePhis(fr)
 		for _, instr := range nonPhis {
-			if fr.i.mode&EnableTracing != 0 {
+			i.path.steps++
+			if i.path.steps > i.cfg.maxSteps {
+				i.path.truncated = true
+				panic(pathAbort{"budget", "instruction budget exceeded in " + fr.fn.String()})
+			}
+			if i.cfg.trace {
 				if v, ok := instr.(ssa.Value); ok {
 					fmt.Fprintln(os.Stderr, "\t", v.Name(), "=", instr)
 				} else {
@@ -600,13 +640,10 @@ func runFrame(fr *frame) {
 			if visitInstr(fr, instr) == kReturn {
 				return
 			}
-			// Inv: kNext (continue) or kJump (last instr)
 		}
 	}
 }
 
-// executePhis executes the phi-nodes at the start of the current
-// block and returns the non-phi instructions.
 func executePhis(fr *frame) []ssa.Instruction {
 	firstNonPhi := -1
 	for i, instr := range fr.block.Instrs {
@@ -615,22 +652,13 @@ func executePhis(fr *frame) []ssa.Instruction {
 			break
 		}
 	}
-	// Inv: 0 <= firstNonPhi; every block contains a non-phi.
-
 	nonPhis := fr.block.Instrs[firstNonPhi:]
 	if firstNonPhi > 0 {
 		phis := fr.block.Instrs[:firstNonPhi]
-		// Execute parallel assignment of phis.
-		//
-		// See "the swap problem" in Briggs et al's "Practical Improvements
-		// to the Construction and Destruction of SSA Form" for discussion.
 		predIndex := slices.Index(fr.block.Preds, fr.prevBlock)
 		fr.phitemps = fr.phitemps[:0]
 		for _, phi := range phis {
 			phi := phi.(*ssa.Phi)
-			if fr.i.mode&EnableTracing != 0 {
-				fmt.Fprintln(os.Stderr, "\t", phi.Name(), "=", phi)
-			}
 			fr.phitemps = append(fr.phitemps, fr.get(phi.Edges[predIndex]))
 		}
 		for i, phi := range phis {
@@ -642,114 +670,32 @@ func executePhis(fr *frame) []ssa.Instruction {
 
 // doRecover implements the recover() built-in.
 func doRecover(caller *frame) value {
-	// recover() must be exactly one level beneath the deferred
-	// function (two levels beneath the panicking function) to
-	// have any effect.  Thus we ignore both "defer recover()" and
-	// "defer f() -> g() -> recover()".
-	if caller.i.mode&DisableRecover == 0 &&
-		caller != nil && !caller.panicking &&
+	if caller != nil && !caller.panicking &&
 		caller.caller != nil && caller.caller.panicking {
 		caller.caller.panicking = false
 		p := caller.caller.panic
 		caller.caller.panic = nil
-
-		// TODO(adonovan): support runtime.Goexit.
 		switch p := p.(type) {
 		case targetPanic:
-			// The target program explicitly called panic().
 			return p.v
-		case runtime.Error:
-			// The interpreter encountered a runtime error.
+		case rtError:
 			return iface{caller.i.runtimeErrorString, p.Error()}
-		case string:
-			// The interpreter explicitly called panic().
-			return iface{caller.i.runtimeErrorString, p}
+		case runtime.Error:
+			return iface{caller.i.runtimeErrorString, p.Error()}
 		default:
-			panic(fmt.Sprintf("unexpected panic type %T in target call to recover()", p))
+			panic(engineError(fmt.Sprintf("unexpected panic type %T in target call to recover()", p)))
 		}
 	}
 	return iface{}
 }
 
-// Interpret interprets the Go program whose main package is mainpkg.
-// mode specifies various interpreter options.  filename and args are
-// the initial values of os.Args for the target program.  sizes is the
-// effective type-sizing function for this program.
-//
-// Interpret returns the exit code of the program: 2 for panic (like
-// gc does), or the argument to os.Exit for normal termination.
-//
-// The SSA program must include the "runtime" package.
-//
-// Type parameterized functions must have been built with
-// InstantiateGenerics in the ssa.BuilderMode to be interpreted.
-func Interpret(mainpkg *ssa.Package, mode Mode, sizes types.Sizes, filename string, args []string) (exitCode int) {
-	i := &interpreter{
-		prog:       mainpkg.Prog,
-		globals:    make(map[*ssa.Global]*value),
-		mode:       mode,
-		sizes:      sizes,
-		goroutines: 1,
-	}
-	runtimePkg := i.prog.ImportedPackage("runtime")
-	if runtimePkg == nil {
-		panic("ssa.Program doesn't include runtime package")
-	}
-	i.runtimeErrorString = runtimePkg.Type("errorString").Object().Type()
-
-	initReflect(i)
-
-	i.osArgs = append(i.osArgs, filename)
-	for _, arg := range args {
-		i.osArgs = append(i.osArgs, arg)
-	}
-
-	for _, pkg := range i.prog.AllPackages() {
-		// Initialize global storage.
-		for _, m := range pkg.Members {
-			switch v := m.(type) {
-			case *ssa.Global:
-				cell := zero(typeparams.MustDeref(v.Type()))
-				i.globals[v] = &cell
-			}
+func (fr *frame) stack() string {
+	var sb strings.Builder
+	for f, n := fr, 0; f != nil && n < 12; f, n = f.caller, n+1 {
+		if n > 0 {
+			sb.WriteString(" <- ")
 		}
+		sb.WriteString(f.fn.String())
 	}
-
-	// Top-level error handler.
-	exitCode = 2
-	defer func() {
-		if exitCode != 2 || i.mode&DisableRecover != 0 {
-			return
-		}
-		switch p := recover().(type) {
-		case exitPanic:
-			exitCode = int(p)
-			return
-		case targetPanic:
-			fmt.Fprintln(os.Stderr, "panic:", toString(p.v))
-		case runtime.Error:
-			fmt.Fprintln(os.Stderr, "panic:", p.Error())
-		case string:
-			fmt.Fprintln(os.Stderr, "panic:", p)
-		default:
-			fmt.Fprintf(os.Stderr, "panic: unexpected type: %T: %v\n", p, p)
-		}
-
-		// TODO(adonovan): dump panicking interpreter goroutine?
-		// buf := make([]byte, 0x10000)
-		// runtime.Stack(buf, false)
-		// fmt.Fprintln(os.Stderr, string(buf))
-		// (Or dump panicking target goroutine?)
-	}()
-
-	// Run!
-	call(i, nil, token.NoPos, mainpkg.Func("init"), nil)
-	if mainFn := mainpkg.Func("main"); mainFn != nil {
-		call(i, nil, token.NoPos, mainFn, nil)
-		exitCode = 0
-	} else {
-		fmt.Fprintln(os.Stderr, "No main function.")
-		exitCode = 1
-	}
-	return
+	return sb.String()
 }
